@@ -191,8 +191,9 @@ VARIABLES
     off,     \* read_exact / write_all progress
     ret,     \* [err, n]: value returned by default_read_to_end, then by the operation
     calls,   \* history: <<requested/offered length, kind, n>> per call of read()/write()
-    bad      \* transcription-level assertions that failed (set of strings)
-vars == <<case, pc, vec, cap, initd, truly, ri, left, pos, term, off, ret, calls, bad>>
+    bad,     \* transcription-level assertions that failed (set of strings)
+    acts     \* history: which branches of the transcription this behaviour took (coverage)
+vars == <<case, pc, vec, cap, initd, truly, ri, left, pos, term, off, ret, calls, bad, acts>>
 
 script == case.script
 data   == case.data
@@ -215,6 +216,7 @@ InitFor(c) ==
     /\ ret = [err |-> 0, n |-> 0]
     /\ calls = <<>>
     /\ bad = {}
+    /\ acts = {}
 
 \* the scripted reader: response to a read of `req` bytes
 Resp(req) ==
@@ -238,6 +240,7 @@ WResp(m) ==
            [] it.t = "err"   -> [kind |-> "err", n |-> it.k, ri |-> ri + 1, term |-> TRUE]
 
 Log(req, r) == calls' = Append(calls, <<req, r.kind, r.n>>)
+Did(tags) == acts' = acts \cup tags
 Flags(req, r) == (IF req = 0 THEN {"zero_length_request"} ELSE {})
                  \cup (IF r.kind = "after" THEN {"call_after_terminal"} ELSE {})
 Bytes(n) == SubSeq(data, pos + 1, pos + n)
@@ -258,6 +261,9 @@ ReadStep ==
                         \cup (IF initd > trulyA THEN {"assume_init_of_uninitialised_bytes"} ELSE {})
                         \cup (IF rbInit0 > spare THEN {"initialized_beyond_capacity"} ELSE {})
          IN  /\ cap' = cap1
+             /\ Did({"read:" \o r.kind} \cup (IF len = cap THEN {"read:reserve"} ELSE {})
+                    \cup (IF initd > 0 THEN {"read:carried_init"} ELSE {})
+                    \cup (IF r.kind = "data" /\ len + r.n = cap1 /\ cap1 = startCap THEN {"read:exact_fit"} ELSE {}))
              /\ Log(req, r)
              /\ ri' = r.ri /\ left' = r.left /\ term' = r.term
              /\ UNCHANGED <<case, off>>
@@ -296,6 +302,7 @@ ReadStep ==
 ProbeStep ==
     /\ pc = "probe"
     /\ LET r == Resp(32) IN
+       /\ Did({"probe:" \o r.kind})
        /\ Log(32, r)
        /\ ri' = r.ri /\ left' = r.left /\ term' = r.term
        /\ UNCHANGED <<case, off, initd>>
@@ -332,7 +339,9 @@ Return ==
        THEN \* ret.and_then(|_| Err(..)); Guard::drop sets the length back to the old one
             /\ ret' = IF ret.err = 0 THEN [err |-> NOCODE, n |-> 0] ELSE ret
             /\ vec' = SubSeq(vec, 1, startLen)
-       ELSE UNCHANGED <<ret, vec>>
+            /\ Did({IF ret.err = 0 THEN "guard:invalid_utf8" ELSE "guard:invalid_utf8_and_error"})
+       ELSE /\ UNCHANGED <<ret, vec>>
+            /\ Did(IF case.op = "read_to_string" THEN {"guard:valid_utf8"} ELSE {"return"})
 
 \* default_read_exact
 ExactStep ==
@@ -340,6 +349,7 @@ ExactStep ==
     /\ off < case.n                       \* while !buf.is_empty()
     /\ LET req == case.n - off
            r   == Resp(req) IN
+       /\ Did({"exact:" \o r.kind})
        /\ Log(req, r)
        /\ ri' = r.ri /\ left' = r.left /\ term' = r.term
        /\ bad' = bad \cup Flags(req, r)
@@ -357,6 +367,7 @@ ExactEnd ==
     /\ (pc = "xloop" /\ off = case.n) \/ pc = "xend"
     /\ ret' = IF off = case.n THEN [err |-> 0, n |-> 0] ELSE [err |-> NOCODE, n |-> 0]
     /\ pc' = "done"
+    /\ Did({IF off = case.n THEN "exact:filled" ELSE "exact:unexpected_eof"})
     /\ UNCHANGED <<case, vec, cap, initd, truly, ri, left, pos, term, off, calls, bad>>
 
 \* Write::write_all, once per piece (write_fmt: Adapter::write_str per fragment)
@@ -366,6 +377,7 @@ WriteStep ==
     /\ LET pend == PieceEnd(Ends(case.pieces), 1, off)
            m    == pend - off
            r    == WResp(m) IN
+       /\ Did({"write:" \o r.kind} \cup (IF r.kind = "acc" /\ r.n < m THEN {"write:short"} ELSE {}))
        /\ Log(m, r)
        /\ ri' = r.ri /\ term' = r.term
        /\ bad' = bad \cup Flags(m, r)
@@ -386,6 +398,7 @@ WriteEnd ==
     /\ pc' = "done"
     \* fmt::write failed although no I/O error was saved: Err(Error::no_code("formatter error"))
     /\ ret' = IF case.ff = 1 THEN [err |-> NOCODE, n |-> 0] ELSE ret
+    /\ Did({IF case.ff = 1 THEN "write:formatter_error" ELSE "write:complete"})
     /\ UNCHANGED <<case, vec, cap, initd, truly, ri, left, pos, term, off, calls, bad>>
 
 Next == ReadStep \/ ProbeStep \/ Return \/ ExactStep \/ ExactEnd \/ WriteStep \/ WriteEnd
